@@ -245,6 +245,16 @@ func runBinary(c *ProcCase, variant string) (res procResult, trouble error) {
 		argv = append([]string{"-f", "-qq", "-o", filepath.Join(dir, ".strace"), "-P", path, "-e", "trace=" + c.Strace.Syscall, "-e", fmt.Sprintf("inject=%s:error=%s:when=%d", c.Strace.Syscall, c.Strace.Errno, c.Strace.When), bin}, args...)
 		bin = "/usr/bin/strace"
 	}
+	// the reading end of an output pipe is opened before the binary starts: a
+	// pipe nobody holds open loses what was written into it
+	var ofifoReader *os.File
+	if c.ofifo != "" {
+		rf, err := os.OpenFile(c.ofifo, os.O_RDWR, 0)
+		if err != nil {
+			return res, err
+		}
+		ofifoReader = rf
+	}
 	cmd := exec.Command(bin, argv...)
 	cmd.Dir = dir
 	cmd.Stdin = stdin
@@ -277,6 +287,9 @@ func runBinary(c *ProcCase, variant string) (res procResult, trouble error) {
 	cmd.Stderr = se
 	cmd.Env = append([]string{"PATH=/usr/bin:/bin", "HOME=" + dir}, c.Env...)
 	if err := cmd.Start(); err != nil {
+		if ofifoReader != nil {
+			ofifoReader.Close()
+		}
 		return res, err
 	}
 	res.started = true
@@ -287,26 +300,32 @@ func runBinary(c *ProcCase, variant string) (res procResult, trouble error) {
 	if c.ofifo != "" {
 		// opened for reading and writing: never blocks, never sees end of file;
 		// read until the binary has exited and nothing more arrives
-		if rf, err := os.OpenFile(c.ofifo, os.O_RDWR, 0); err == nil {
+		if rf := ofifoReader; rf != nil {
 			feeders.Add(1)
 			go func() {
 				defer feeders.Done()
 				defer rf.Close()
 				buf := make([]byte, 65536)
-				exited := false
-				for {
-					rf.SetReadDeadline(time.Now().Add(20 * time.Millisecond))
-					n, err := rf.Read(buf)
-					ofifoData = append(ofifoData, buf[:n]...)
-					if err != nil && n == 0 {
-						if exited {
+				// how much is waiting is asked of the pipe itself (FIONREAD), so no
+				// deadline decides whether data is there: a starved harness must not
+				// lose the tail of the output
+				drain := func() {
+					for pipeUnread(rf.Fd()) > 0 {
+						rf.SetReadDeadline(time.Now().Add(10 * time.Second))
+						n, err := rf.Read(buf)
+						ofifoData = append(ofifoData, buf[:n]...)
+						if err != nil && n == 0 {
 							return
 						}
-						select {
-						case <-done:
-							exited = true // one more round to drain what was written last
-						default:
-						}
+					}
+				}
+				for {
+					select {
+					case <-done:
+						drain()
+						return
+					case <-time.After(2 * time.Millisecond):
+						drain()
 					}
 				}
 			}()
